@@ -97,6 +97,9 @@ fn simple_type(feel_type: FeelType) -> Result<ItemDefinitionTypeEvaluatorFn> {
 
 ///
 fn referenced_type(ref_type: String) -> Result<ItemDefinitionTypeEvaluatorFn> {
+  if ref_type.trim() == "Any" {
+    return Ok(Box::new(move |_: &ItemDefinitionTypeEvaluator| Some(FeelType::Any)));
+  }
   Ok(Box::new(move |evaluators: &ItemDefinitionTypeEvaluator| evaluators.eval(&ref_type)))
 }
 
@@ -141,6 +144,9 @@ fn collection_of_simple_type(feel_type: FeelType) -> Result<ItemDefinitionTypeEv
 
 ///
 fn collection_of_referenced_type(type_ref: String) -> Result<ItemDefinitionTypeEvaluatorFn> {
+  if type_ref.trim() == "Any" {
+    return Ok(Box::new(move |_: &ItemDefinitionTypeEvaluator| Some(FeelType::list(&FeelType::Any))));
+  }
   Ok(Box::new(move |evaluators: &ItemDefinitionTypeEvaluator| {
     evaluators.eval(&type_ref).map(|feel_type| FeelType::List(Box::new(feel_type)))
   }))
